@@ -37,6 +37,23 @@ CHECKS = {
             "streams against the real parsers + independent splitter oracle", "5-C18"),
 }
 
+CHECKS.update({
+    "C06": ("token invariant of the wake-up protocol slice P2 (Notify permit / notified / queued pull) inductive over all interleavings "
+            "and cancellation points, no-lost-wakeup at quiescence; tied by concurrent wake scenarios with quiescent probes + turn-trace "
+            "validation of the notify flags", "5-C06"),
+    "C07": ("deadlock slice P3: kernel-checked deadlock witness of the pre-fix protocol, inductive invariant, progress and strictly "
+            "decreasing measure for the repaired protocol for every capacity >= 1; tied by burst scenarios with shrunken mailboxes "
+            "(no call may hang or take virtual time) + turn-trace validation", "5-C07"),
+    "C12": ("release after deletion in slice P2: nobody parks after DeleteEnd, progress and decreasing measure for both outcomes of "
+            "the randomised select, pre-fix silent-end witness; tied by delete scenarios against open streams / blocked pulls / racers", "5-C12"),
+    "C14": ("dispatch-turn theorems for every endpoint outcome (fault sequence) on top of C02/C04/C05, registry frame theorem, accepted "
+            "status table; tied by the real push loop against a scripted HTTP endpoint + registry correspondence", "5-C14"),
+    "C16": ("cancellation slice P4: pre-fix orphan witness, inductive invariant and all-or-nothing at quiescence with a cancel label at "
+            "every await, abandoned-pull theorem; tied by poll-k-then-drop scenarios under saturated mailboxes", "5-C16"),
+    "C19": ("flow-control slice P5 at atomic-operation granularity: inductive invariant (epoch / touched ghost), safety, no-missed-capacity "
+            "and broadcast for all interleavings; tied by call-granularity correspondence with hand-polled waiter futures", "5-C19"),
+})
+
 PENDING = {
     "C06": "check under construction in this round (wake-up protocol slice + trace stream); not claimed until it runs",
     "C07": "check under construction in this round (deadlock slice + burst stream); not claimed until it runs",
